@@ -100,6 +100,18 @@ namespace {
 
         bytes some_type()
         {
+            bytes t = some_type16or128();
+            if ( t.size() == 2 && chance( 8 ) )
+            {
+                // the same UUID in its 128 bit form
+                bytes l{ 0xfb, 0x34, 0x9b, 0x5f, 0x80, 0x00, 0x00, 0x80, 0x00, 0x10, 0x00, 0x00, t[ 0 ], t[ 1 ], 0x00, 0x00 };
+                return l;
+            }
+            return t;
+        }
+
+        bytes some_type16or128()
+        {
             const int k = rnd( 0, 11 );
             switch ( k )
             {
@@ -639,7 +651,7 @@ namespace {
                 for ( int ai : m.in_range( start, end ) )
                 {
                     bytes v;
-                    if ( db.attrs[ ai ].type == tail )
+                    if ( db.attrs[ ai ].type == vg::norm_uuid( tail ) )
                     {
                         const auto s = m.read_attr( ai, c, v );
                         if ( s == vg::Model::RS_UNKNOWN )
